@@ -2,6 +2,7 @@
 //! Usage: rfv <driver> --out <trace.ndjson> [--tier quick|thorough] [--seed N] [--shard i/m] [--scenarios file]
 mod calls;
 mod ctx;
+mod d_ctor;
 mod d_exact;
 mod d_hist;
 mod d_threads;
@@ -105,6 +106,7 @@ fn main() {
         "c14" => d_exact::run_exact(&mut ctx, true),
         "c10" => d_hist::run_c10(&mut ctx),
         "c13" => d_variants::run_c13(&mut ctx),
+        "c12" => d_ctor::run_c12(&mut ctx, &scenarios),
         "c11" => d_threads::run_c11(&mut ctx, &scenarios),
         "c02" => d_num::run_accuracy(&mut ctx, true),
         "c06" => d_num::run_c06(&mut ctx),
